@@ -20,6 +20,7 @@ import os
 import dns.name
 import dns.rdata
 import dns.rdataset
+import dns.transaction
 import dns.versioned
 import dns.zone
 
@@ -69,7 +70,23 @@ LEVEL = {
 }
 
 LOG = dns.name.from_text("log", None)
-ROLES = ("wca", "wcr", "wra", "wcn", "rd")
+# role -> (the zone changes at the end?, body kind, route to the end of the transaction)
+#   body: a = append own id, r = reset the log to [own id], n = no change
+#   route: commit / rollback = explicit call; with = `with txn:` left normally (commit in __exit__);
+#          with-exc = exception raised in the with body (rollback in __exit__);
+#          double = commit(), then a second rollback() and commit() that must raise AlreadyEnded and touch nothing
+ROLE_INFO = {
+    "wca": (True, "a", "commit"), "wcr": (True, "r", "commit"), "wra": (False, "a", "rollback"),
+    "wcn": (False, "n", "commit"), "wwa": (True, "a", "with"), "wxa": (False, "a", "with-exc"),
+    "wda": (True, "a", "double"),
+    "rd": (False, "n", "rollback"), "rdw": (False, "n", "with"),
+}
+ROLES = tuple(ROLE_INFO)
+READERS = ("rd", "rdw")
+
+
+class Boom(Exception):
+    """raised on purpose inside a `with txn:` body"""
 TRACED_ZONE_FUNCS = {"_setup_version", "_end_transaction"}
 
 
@@ -107,9 +124,10 @@ def so(x):
 
 
 def body_of(role, tid, c):
-    if role in ("wca", "wra"):
+    kind = ROLE_INFO[role][1]
+    if kind == "a":
         return tuple(c) + (tid,)
-    if role == "wcr":
+    if kind == "r":
         return (tid,)
     return tuple(c)
 
@@ -251,9 +269,11 @@ class Observer:
             if tid not in self.blocked_on_wait:
                 self.note("event-set-before-the-waiter-waits")
             self.blocked_on_wait.discard(tid)
-            if self.roles[tid] == "rd":
+            if self.roles[tid] in READERS:
                 self.bad("C12/readers-nonblocking/reader-waits-on-event", f"reader {tid} waited on event {what[1]}")
             self.emit(tid, f"wait.{what[1]}")
+        elif k == "waitto":  # a wait with a timeout returned without the event being set
+            self.emit(tid, f"waitto.{what[1]}")
         elif k == "ret":  # writer() returned
             txn, vid, snap = what[1], what[2], what[3]
             self.returned.add(tid)
@@ -335,20 +355,45 @@ def run_schedule(roles, mode, chooser, max_steps=6000):
                 rds = txn.get(LOG, "TXT")
                 cur = tuple(int(x) for x in rds[0].strings) if rds is not None else ()
                 new = body_of(role, t, cur)
-                if role != "wcn":
-                    txn.replace(LOG, rdataset_of(new))
+                route = ROLE_INFO[role][2]
+
+                def body():
+                    if ROLE_INFO[role][1] != "n":
+                        txn.replace(LOG, rdataset_of(new))
+
+                if route in ("commit", "rollback", "double"):
+                    body()
                 sch.mark("w-end")
                 sch.op(("wending",))
-                if role in ("wca", "wcr", "wcn"):
+                if route == "commit":
                     txn.commit()
-                else:
+                elif route == "rollback":
                     txn.rollback()
+                elif route == "with":
+                    with txn:
+                        body()
+                elif route == "with-exc":
+                    try:
+                        with txn:
+                            body()
+                            raise Boom()
+                    except Boom:
+                        pass
+                else:  # double
+                    txn.commit()
+                    for again in (txn.rollback, txn.commit):
+                        try:
+                            again()
+                        except dns.transaction.AlreadyEnded:
+                            pass
+                        else:
+                            obs.bad("C12/mutex/transaction-ended-twice", f"writer {t}: a second end of an ended transaction was accepted")
                 sch._micro(sch.current())
                 sch.op(("wend",))
                 sch.mark("w-done")
             return prog
 
-        def reader_prog(t):
+        def reader_prog(t, role):
             def prog():
                 sch.mark("r-call")
                 r = zone.reader()
@@ -359,13 +404,17 @@ def run_schedule(roles, mode, chooser, max_steps=6000):
                 seen = tuple(int(x) for x in rds[0].strings) if rds is not None else ()
                 sch.op(("seen", r.version.id, content_of(r.version.nodes), seen))
                 sch.mark("r-end")
-                r.rollback()
+                if role == "rdw":
+                    with r:
+                        pass
+                else:
+                    r.rollback()
                 sch._micro(sch.current())
                 sch.mark("r-done")
             return prog
 
         for t, role in enumerate(roles):
-            sch.spawn(reader_prog(t) if role == "rd" else writer_prog(t, role))
+            sch.spawn(reader_prog(t, role) if role in READERS else writer_prog(t, role))
         sch.run()
         # ---- verdicts of the monitors
         fails = list(obs.fail)
@@ -381,13 +430,13 @@ def run_schedule(roles, mode, chooser, max_steps=6000):
             fails.append(("C12/livelock/step-limit", f"more than {max_steps} steps"))
         finished = sch.deadlock is None and not sch.livelock and all(mt.exc is None for mt in sch.threads)
         if finished:
-            writers = [t for t, r in enumerate(roles) if r != "rd"]
+            writers = [t for t, r in enumerate(roles) if r not in READERS]
             if sorted(obs.admitted) != writers:
                 fails.append(("C12/admission/not-all-admitted", f"admitted {obs.admitted} of {writers}"))
             expect = ()
             hist = [()]
             for t in obs.admitted:
-                if roles[t] in ("wca", "wcr"):
+                if ROLE_INFO[roles[t]][0]:
                     expect = body_of(roles[t], t, expect)
                     hist.append(expect)
             got = content_of(zone.nodes)
@@ -454,7 +503,8 @@ def eval_case(ctx: Ctx, c: dict, chooser=None):
 def gen_roles(rng):
     nw = rng.choice([2, 2, 3, 3, 3, 4, 4, 5])
     nr = rng.choice([0, 0, 1, 1, 2, 3])
-    roles = [rng.choice(["wca", "wca", "wca", "wcr", "wra", "wra", "wcn"]) for _ in range(nw)] + ["rd"] * nr
+    roles = ([rng.choice(["wca", "wca", "wca", "wcr", "wra", "wra", "wcn", "wwa", "wxa", "wda"]) for _ in range(nw)]
+             + [rng.choice(["rd", "rd", "rdw"]) for _ in range(nr)])
     return rng.shuffle(roles)
 
 
@@ -462,11 +512,21 @@ STRATEGIES = [("uniform",), ("sticky", 3, 4), ("sticky", 15, 16), ("pct", 1, 300
 BOUNDARY_ROLES = [
     ["wca", "wca"], ["wca", "wra"], ["wra", "wca"], ["wcn", "wca"], ["wca", "wca", "wca"], ["wra", "wra", "wca"],
     ["wca", "rd"], ["wca", "wca", "rd"], ["wca", "wcr", "rd", "rd"], ["wca", "wca", "wca", "wca", "wca", "rd", "rd", "rd"],
+    ["wxa", "wca"], ["wxa", "wca", "wca"], ["wwa", "wwa"], ["wda", "wca"], ["wcn", "wca", "wca"], ["wca", "rdw", "rd"],
+    ["wca", "wca", "wca", "wca"],
 ]
+
+
+def enough(ctx: Ctx) -> bool:
+    """stop exploring once plenty of failing schedules are in hand (never true on a tree that keeps the property)"""
+    return len(ctx.failures) >= 60
 
 
 def generate(ctx: Ctx, n: int, rng):
     for i in range(n):
+        if enough(ctx):
+            ctx.count("generate.stopped-early-on-failures")
+            return
         roles = rng.choice(BOUNDARY_ROLES) if rng.chance(1, 4) else gen_roles(rng)
         mode = "line" if rng.chance(3, 4) else "sync"
         strategy = rng.choice(STRATEGIES)
@@ -520,6 +580,9 @@ def core_run_model(ctx, line):
 def exhaustive(ctx: Ctx, roles, mode, max_runs, bound=None, use_keys=True):
     state = {}
 
+    if enough(ctx):
+        return 0, False
+
     def once(ch):
         c = {"kind": "sched", "roles": roles, "mode": mode}
         r = eval_case(ctx, c, chooser=ch)
@@ -532,7 +595,8 @@ def exhaustive(ctx: Ctx, roles, mode, max_runs, bound=None, use_keys=True):
                 tuple(v.id for v in z._versions), tuple(sorted(r.version.id for r in z._readers)),
                 tuple(sorted(sch.observer.local.items())))
 
-    runs, complete = S.dfs(once, max_runs, keyfn=keyfn if use_keys else None, preemption_bound=bound)
+    runs, complete = S.dfs(once, max_runs, keyfn=keyfn if use_keys else None, preemption_bound=bound,
+                           stop_fn=lambda: enough(ctx))
     tag = f"dfs.{'+'.join(roles)}.{mode}" + (f".pb{bound}" if bound is not None else "")
     ctx.count(tag + ".runs", runs)
     ctx.count(tag + (".complete" if complete else ".budget-exhausted"))
